@@ -173,6 +173,9 @@ func (s *storage) setTerm(term uint64) {
 		if err := s.termVal.set(term, 0); err != nil {
 			panic(opError(err, "storage.setTermVote(%d, %d)", term, 0))
 		}
+		if verif {
+			verifPoint("term.persisted", s.termVal.dir)
+		}
 		s.term, s.votedFor = term, 0
 	}
 }
@@ -188,6 +191,9 @@ func (s *storage) setVotedFor(term, candidate uint64) {
 		}
 		if err != nil {
 			panic(opError(err, "storage.setTermVote(%d, %d)", term, candidate))
+		}
+		if verif {
+			verifPoint("vote.persisted", s.termVal.dir)
 		}
 		s.term, s.votedFor = term, candidate
 	}
@@ -297,7 +303,13 @@ func (s *storage) bootstrap(config Config) (err error) {
 		}
 	}()
 	s.appendEntry(config.encode())
+	if verif {
+		verifPoint("bootstrap.appended", s.termVal.dir)
+	}
 	s.commitLog(1)
+	if verif {
+		verifPoint("bootstrap.flushed", s.termVal.dir)
+	}
 	s.setTerm(1)
 	s.lastLogIndex, s.lastLogTerm = config.Index, config.Term
 	return nil
